@@ -940,6 +940,22 @@ func (fr *Frame) typeAssert(x *ssa.TypeAssert, st *State, reach string) Val {
 		ok := c.smt.declareFresh("taok", "Bool")
 		res := fr.havocVal(x.AssertedType, "ta")
 		c.smt.assume(implies(eq(c.termOf(v), "0"), not(ok)), "type assertion on nil interface fails")
+		if _, isIface := x.AssertedType.Underlying().(*types.Interface); !isIface {
+			// v, ok := x.(T) for a concrete T: ok exactly when x holds a T; a *Struct result is the stored pointer, and
+			// the zero value when the assertion fails
+			c.smt.declareFun("iface_type", []string{"Int"}, "Int")
+			c.smt.declareFun("iface_payload", []string{"Int"}, "Int")
+			it := c.termOf(v)
+			c.smt.assume(eq(ok, and(not(eq(it, "0")), eq(app("iface_type", it), fmt.Sprint(goTypeTag(x.AssertedType))))), "v, ok := x.(T): ok iff the dynamic type of x is T")
+			if _, isPS := ptrToStruct(x.AssertedType); isPS && res.Term != "" {
+				c.smt.assume(eq(res.Term, ite(ok, app("iface_payload", it), "0")), "v, ok := x.(*T): the stored pointer, or nil")
+			} else if res.Term != "" && res.Tuple == nil {
+				// a value stored in the interface: a function of the interface value (valueIn(x, T) in contracts)
+				fn := "iface_val_" + sanitize(sortTag(c.sortOf(x.AssertedType)))
+				c.smt.declareFun(fn, []string{"Int"}, c.sortOf(x.AssertedType))
+				c.smt.assume(implies(ok, eq(res.Term, app(fn, it))), "v, ok := x.(T): the stored value")
+			}
+		}
 		return Val{T: x.Type(), Tuple: []Val{res, {T: types.Typ[types.Bool], Term: ok}}}
 	}
 	if v.Dyn != nil && types.Identical(v.Dyn.T, x.AssertedType) {
